@@ -7,7 +7,7 @@ META = {
     "level": "model_checking",
     "technique": "TLA+ spec (pool/TxOrder.tla: abstract per-account head indices + the container/heap array maintained by heap.Init/Fix/Pop as the code calls them, ghost yield history) model-checked with TLC over all bounded snapshots and all Shift/Pop sequences; every behaviour of a complete TLC state graph and TLC-sampled behaviours of a larger domain replayed on txorder.TransactionsByPriceAndNonce; recorded runs on random 50-account snapshots validated by TxOrderTrace.tla",
     "text": "TLC explores every snapshot of the bounded domain (3 accounts x <=2 transactions over fee kinds below/at/above the base fee with tip-bound and cap-bound effective tips, base fee none/2/3, non-monotone arrival times; plus 5-account heaps; every initial heap arrangement) and every Shift/Pop choice sequence, checking that the head of each account is exactly the successor of what was yielded from it (nonce order, nothing after an unincludable transaction, nothing after Pop), that the heap holds exactly the live heads, is heap-ordered and its root is the head with the highest effective tip (earlier arrival on ties), that every step yields that best head and touches only its account, and that an exhausted iterator without Pop has yielded exactly the includable prefix of every account. For every snapshot of a complete state graph all maximal Shift/Pop paths are executed on fresh real iterators comparing Peek (account, nonce index, effective fee, emptiness) after construction and after every step; TLC -simulate behaviours over 5 accounts x <=3 transactions are replayed the same way; runs of the real iterator on random 50-account snapshots are validated step by step by TLC with all invariants evaluated.",
-    "note": "Arrival times are pairwise distinct (equal fee and equal time leaves the order unspecified); fee values < 2^31; the map iteration order of the constructor is covered in the model by all permutations, in the real runs by Go's randomised map order. Trusts the (account, index) identity carried in LazyTransaction.Hash by the driver.",
+    "note": "Every replay runs with the fee values as given, scaled by 2^100 and by 2^222 (order and effective tips scale; the implementation computes far beyond 64 bits), recorded runs scale by 1, 2^70 or 2^200. Arrival times are pairwise distinct (equal fee and equal time leaves the order unspecified); fee values < 2^31; the map iteration order of the constructor is covered in the model by all permutations, in the real runs by Go's randomised map order. Trusts the (account, index) identity carried in LazyTransaction.Hash by the driver.",
     "design_ref": "3.6 C43",
 }
 
@@ -44,5 +44,11 @@ def run(ctx):
     ok, consumed, total, r = ctx.validate("pool/TxOrderTrace", tp, ntraces=s["traces"], timeout=T)
     if not ok:
         ctx.reject_trace("pool/TxOrderTrace", tp, consumed, r)
+    # V: a snapshot with 300 accounts (heap indices and counters beyond 8 bits)
+    tp2 = os.path.join(ctx.scratch, "trace-big.ndjson")
+    s2, _ = ctx.drive(drv, ["-mode", "record", "-trace", tp2, "-n", ctx.pick(1, 4), "-na", 300, "-maxtx", 2], name="c43-record-big", timeout=T)
+    ok, consumed, total, r = ctx.validate("pool/TxOrderTrace", tp2, cfg="pool/TxOrderTraceBig", ntraces=s2["traces"], timeout=T, name="TxOrderTraceBig")
+    if not ok:
+        ctx.reject_trace("pool/TxOrderTrace", tp2, consumed, r, cfg="pool/TxOrderTraceBig")
     return ctx.finish(rule="MC: all bounded snapshots x all Shift/Pop sequences x all initial heap orders; R: all paths of a complete graph + sampled behaviours; V: random 50-account snapshots",
-                      assumptions=["arrival times pairwise distinct", "fee values < 2^31"])
+                      assumptions=["arrival times pairwise distinct", "fee values are small integers times a power of two"])
